@@ -13,8 +13,13 @@ The reset of a variable is the matching `X.reset(...)`, the second assignment to
   "finally" : inside the `finally` block of a `try` whose body contains the `yield`,
   "after"   : somewhere else after the `yield` (skipped when the body raises),
   "none"    : there is no reset at all.
-Removing a try/finally, or moving the reset out of it, changes the table.
-Context managers that set nothing are listed with the variable "-".
+A fifth column says WHAT is restored:
+  "self"  : the value the variable itself had before it was set — `X.reset(tok)` with `tok = X.set(...)`,
+            `mod.attr = saved` with `saved = mod.attr`, `os.chdir(saved)` with `saved = os.getcwd()`
+            (every non-constant assignment to `saved` before the yield must be of that form),
+  "other" : anything else (e.g. a directory recorded elsewhere), "-" when there is no reset.
+Removing a try/finally, moving the reset out of it, or restoring a value that was not read from the
+variable changes the table.  Context managers that set nothing are listed with the variable "-".
 """
 from __future__ import annotations
 
@@ -85,8 +90,43 @@ def _effects(node):
     return None
 
 
+def _saved_from_self(nodes, first_yield, var, name):
+    """is every non-constant assignment to `name` before the yield a read of `var` itself?"""
+    found = False
+    for n in nodes:
+        if not isinstance(n, (ast.Assign, ast.AnnAssign)) or n.lineno >= first_yield:
+            continue
+        value = None
+        if isinstance(n, ast.Assign) and any(isinstance(t, ast.Name) and t.id == name for t in n.targets):
+            value = n.value
+        elif isinstance(n, ast.AnnAssign) and isinstance(n.target, ast.Name) and n.target.id == name and n.value is not None:
+            value = n.value
+        if value is None or isinstance(value, ast.Constant):
+            continue
+        src = ast.unparse(value)
+        if var == "os.cwd":
+            ok = src == "os.getcwd()"
+        elif "." in var:
+            ok = src == var
+        else:
+            ok = isinstance(value, ast.Call) and isinstance(value.func, ast.Attribute) and value.func.attr == "set" and ast.unparse(value.func.value) == var
+        if not ok:
+            return False
+        found = True
+    return found
+
+
+def _restored_value(node):
+    """the Name whose value a reset node writes back, or None"""
+    if isinstance(node, ast.Call) and node.args and isinstance(node.args[0], ast.Name):
+        return node.args[0].id
+    if isinstance(node, ast.Assign) and isinstance(node.value, ast.Name):
+        return node.value.id
+    return None
+
+
 def analyse(fn):
-    """[(variable, reset place)] of one context manager"""
+    """[(variable, reset place, what is restored)] of one context manager"""
     nodes = _own_nodes(fn)
     yields = [n for n in nodes if isinstance(n, (ast.Yield, ast.YieldFrom))]
     if not yields:
@@ -104,7 +144,7 @@ def analyse(fn):
                     in_finally.add(id(st))
                     for sub in ast.walk(st):
                         in_finally.add(id(sub))
-    sets, resets = [], {}
+    sets, resets, sources = [], {}, {}
     for n in nodes:
         e = _effects(n)
         if e is None:
@@ -119,7 +159,11 @@ def analyse(fn):
             # the weakest place wins: one reset outside `finally` is enough to lose the guarantee
             if resets.get(var) != "after":
                 resets[var] = place
-    return [(v, resets.get(v, "none")) for v in sets]
+            name = _restored_value(n)
+            src = "self" if name is not None and _saved_from_self(nodes, first_yield, var, name) else "other"
+            if sources.get(var) != "other":
+                sources[var] = src
+    return [(v, resets.get(v, "none"), sources.get(v, "-")) for v in sets]
 
 
 def _parser_context_keys(tree):
@@ -147,17 +191,17 @@ def rows(repo=REPO):
                 problems.append("Brackets: context manager %s:%s has no yield" % (fname, qual))
                 continue
             if not res:
-                out.append((fname, qual, "-", "none"))
-            for var, place in res:
+                out.append((fname, qual, "-", "none", "-"))
+            for var, place, src in res:
                 if qual == "parser_context" and var == "context_var":
                     keys = _parser_context_keys(tree)
                     if not keys:
                         problems.append("Brackets: parser_context_vars not found")
                         continue
                     for k in keys:
-                        out.append((fname, qual, k, place))
+                        out.append((fname, qual, k, place, src))
                 else:
-                    out.append((fname, qual, var, place))
+                    out.append((fname, qual, var, place, src))
     return out, names, problems
 
 
@@ -168,9 +212,10 @@ def generate(problems):
         if needed not in names:
             problems.append("Brackets: context manager %s not found" % needed)
     body = "namespace Jap.Gen.Brackets\n"
-    body += "/-- (file, context manager, variable it sets, place of the reset: \"finally\" | \"after\" | \"none\") -/\n"
-    body += "def brackets : List (String × String × String × String) := [\n"
-    body += ",\n".join("  (%s, %s, %s, %s)" % tuple(lean_str(x) for x in r) for r in table)
+    body += "/-- (file, context manager, variable it sets, place of the reset: \"finally\" | \"after\" | \"none\",\n"
+    body += "    what is restored: \"self\" (the variable's own earlier value) | \"other\" | \"-\") -/\n"
+    body += "def brackets : List (String × String × String × String × String) := [\n"
+    body += ",\n".join("  (%s, %s, %s, %s, %s)" % tuple(lean_str(x) for x in r) for r in table)
     body += "]\n"
     body += "end Jap.Gen.Brackets\n"
     write_if_changed("Brackets.lean", body)
